@@ -27,8 +27,7 @@ def make_scenarios(ctx, count, flen):
         s = H.Scenario("h%d" % i, meta=dict(frames=frames, own=cfg["mac"], mtu=cfg["mtu"], rxseed=cfg["rxseed"]))
         s.iface(0, **H.iface_kw(cfg)).glob(**G.global_kw(glob))
         s.add("OPT sleep=0")
-        for fr in frames:
-            s.frame(0, fr)
+        s.frames(0, frames, rng if i % 2 else None, p_gap=0.25, base=True)
         scns.append(s)
     return scns
 
@@ -123,3 +122,4 @@ def run(ctx):
     rep.need("generation-zero", seen(["gen0"]), 50)
     rep.need("generation-changed", seen(["gen-changed"]), 100)
     rep.need("quick-after-topology-seen", seen(["tos1", "other-service-seen"]), 50)
+    rep.need("clock_gaps_between_frames", rep.counters.get("clock_gaps_between_frames", 0), 200)
